@@ -73,6 +73,11 @@ def execute(c):
             da.hdc.algo.croo()
             da["time"] = real
             c["primed"] = True
+        elif c["tid"] % 3 == 0:
+            # a time coordinate WITHOUT an index (drop_indexes, open_dataset(create_default_indexes=False)): chronological means the
+            # coordinate's values, not the storage order
+            da = da.drop_indexes("time")
+            c["noindex"] = True
         w = core.Watch(da.data) if not c.get("dask") else core.Watch()
         r = da.hdc.algo.croo()
         c["inmod"] = w.changed()
